@@ -5,6 +5,7 @@ about the 32-bit run.
 -/
 import Golib.Proof.C01U32Run
 import Golib.Proof.C01LinStep
+import Golib.Proof.C01Classic
 
 namespace Golib.C01
 open Golib.C01.Util
@@ -72,5 +73,61 @@ theorem lrun32 {k : Nat} (hk1 : 1 ≤ k) (hk : k ≤ 31) {s : State}
     rw [step32 hk1 hk hI i h1, gstep32 hk hI gh i h1]
     simp only [wrapRes]
     exact ih (inv_step g hI i) _ h2
+
+theorem isFirst_wrap (pc : Pc) : isFirst (wrapPc pc) = isFirst pc := by
+  cases pc <;> rfl
+
+/-- clock / log update computed from the 32-bit state = the one computed from the ghost state -/
+theorem tstep32 {k : Nat} (hk : k ≤ 31) {s : State} (hI : Inv { M := 0, cap := 2 ^ k } s) (gh : LGhost)
+    (tg : TGhost) (i : Nat) (hlag : ∀ th, s.threads[i]? = some th → Lag (2 ^ k) s th.pc) :
+    tstep (wrapState s) gh tg i = tstep s gh tg i := by
+  have hcap31 : 2 ^ k ≤ 2147483648 := by
+    have : (2:Nat) ^ k ≤ 2 ^ 31 := Nat.pow_le_pow_right (by omega) hk
+    have : (2:Nat) ^ 31 = 2147483648 := by decide
+    omega
+  have hpos : 0 < 2 ^ k := Nat.pow_pos (by omega)
+  unfold tstep
+  rw [wrap_threads_get]
+  cases hth : s.threads[i]? with
+  | none => rfl
+  | some th =>
+    have hloc := hI.locals th (List.mem_of_getElem? hth)
+    have hlg := hlag th hth
+    simp only [Option.map_some]
+    have hpcw : (wrapThread th).pc = wrapPc th.pc := rfl
+    rw [hpcw]
+    cases hpc : th.pc with
+    | pushCAS v pos seq =>
+      simp only [hpc, PcOk] at hloc
+      simp only [hpc, Lag] at hlg
+      simp only [wrapPc]
+      have htl : (wrapState s).tail = s.tail % W32 := rfl
+      by_cases hc : s.tail = pos
+      · rw [if_pos hc, if_pos (by rw [htl, hc])]
+      · rw [if_neg hc, if_neg (by rw [htl]; omega)]
+    | popCAS pos seq =>
+      simp only [hpc, PcOk] at hloc
+      simp only [hpc, Lag] at hlg
+      simp only [wrapPc]
+      have htl : (wrapState s).head = s.head % W32 := rfl
+      by_cases hc : s.head = pos
+      · rw [if_pos hc, if_pos (by rw [htl, hc])]
+      · rw [if_neg hc, if_neg (by rw [htl]; omega)]
+    | _ => rfl
+
+theorem trun32 {k : Nat} (hk1 : 1 ≤ k) (hk : k ≤ 31) {s : State}
+    (hI : Inv { M := 0, cap := 2 ^ k } s) (gh : LGhost) (tg : TGhost) (σ : List Nat)
+    (hl : LagRun { M := 0, cap := 2 ^ k } s σ) :
+    trun { M := W32, cap := 2 ^ k } (wrapState s) gh tg σ =
+      (wrapState (trun { M := 0, cap := 2 ^ k } s gh tg σ).1, (trun { M := 0, cap := 2 ^ k } s gh tg σ).2) := by
+  induction σ generalizing s gh tg with
+  | nil => rfl
+  | cons i σ ih =>
+    obtain ⟨h1, h2⟩ := hl
+    have g := ghost_pow k hk1
+    simp only [trun]
+    rw [step32 hk1 hk hI i h1, gstep32 hk hI gh i h1, tstep32 hk hI gh tg i h1]
+    simp only [wrapRes]
+    exact ih (inv_step g hI i) _ _ h2
 
 end Golib.C01
